@@ -100,7 +100,9 @@ contract("xdoctest.doctest_part:DoctestPart.compilable_source",
          params={"self": "DoctestPart"}, returns="str", modifies=[], log=False,
          ensures=[("lines-joined", "result == ('\\n'.join(self.exec_lines + ['']) if self.compile_mode == 'single' "
                                    "else '\\n'.join(self.exec_lines))")],
-         props=["C01"], opts={"native": False})
+         props=["C01"],
+         opts={"native": False,
+               "functional": "('\\n'.join(self.exec_lines + ['']) if self.compile_mode == 'single' else '\\n'.join(self.exec_lines))"})
 contract(_Q + "_parse", params={"self": "DocTest"}, trusted=True, log=False, modifies=["self._parts"],
          note="assumed here: afterwards _parts is some list of DoctestPart objects (C13/C14 are about its content)")
 contract(_Q + "_pre_run", params={"self": "DocTest", "verbose": "int"}, trusted=True, log=False, modifies=[],
@@ -132,6 +134,10 @@ contract(_Q + "_post_run",
          sentinel=("passed-when-skipped", "result['passed'] == (not result['failed'])"))
 
 # ------------------------------------------------------------------------ run
+_SK = "(S.rs_skip(runstate.state) or not S.has_code(part.exec_lines))"
+# "has a want" as the code reads it: part.want (the joined want lines) is a non-empty string
+_HASWANT = "(part.want_lines is not None and len(part.want_lines) > 0 and len('\\n'.join(part.want_lines)) > 0)"
+_WANT = "'\\n'.join(part.want_lines)"
 _ONE = ("(result['passed'] and not result['failed'] and not result['skipped']) or "
         "(not result['passed'] and result['failed'] and not result['skipped']) or "
         "(not result['passed'] and not result['failed'] and result['skipped'])")
@@ -142,7 +148,8 @@ contract(_Q + "run",
          requires=[("no-global-exec", "not self.config['global_exec']")],
          ensures=[("one-verdict", _ONE),
                   ("failed-iff-recorded", "result['failed'] == (self.exc_info is not None)"),
-                  ("stdout-restored", "sys.stdout is old(sys.stdout)")],
+                  ("stdout-restored", "sys.stdout is old(sys.stdout)"),
+                  ("namespace-cleared", "self.failed_part == '<IMPORT>' or self.global_namespace.cleared")],
          raises={"Exception*?": "(on_error if on_error is not None else old(self.config['on_error'])) != 'return' "
                                 "and sys.stdout is old(sys.stdout)",
                  "BaseException*?": "sys.stdout is old(sys.stdout)"},
@@ -150,10 +157,6 @@ contract(_Q + "run",
              header="enumerate(self._parts)",
              types={"test_globals": "=self.global_namespace", "compileflags": "int",
                     "self._skipped_parts": "idxlist[self._parts]"},
-             exit_post=[("stdout-is-original", "sys.stdout is old(sys.stdout)"),
-                        ("skipped-at-most-all", "len(self._skipped_parts) <= len(self._parts)"),
-                        ("a-failing-part-is-not-skipped", "implies(self.exc_info is not None, "
-                                                          "len(self._skipped_parts) < len(self._parts))")],
              invariants=[
                  ("debug-off", "not DEBUG"),
                  ("no-failure-yet", "self.exc_info is None"),
@@ -162,7 +165,88 @@ contract(_Q + "run",
                  ("capture-object", "cap.enabled and cap.orig_stdout is old(sys.stdout) and "
                                     "0 <= cap._pos and cap._pos <= len(cap.cap_stdout.buf)"),
                  ("globals-dict", "implies(did_pre_import, test_globals is self.global_namespace)"),
-             ]),
+                 # C11.reset: whatever the object held before this call is gone at the first iteration
+                 ("unmatched-from-this-run", "len(self._unmatched_stdout) <= _i0"),
+                 ("logged-from-this-run", "forall(lambda k: implies(k in self.logged_stdout, 0 <= k and k < _i0))"),
+             ],
+             body_post=[
+                 # C04.skip / C01.once: a skipped part has no effect at all
+                 ("skipped-part-runs-nothing",
+                  "implies(" + _SK + ", ev_count('compile') == 0 and ev_count('exec') == 0 and ev_count('eval') == 0 "
+                  "and ev_count('DoctestPart.check') == 0 and ev_count('check_exception') == 0 "
+                  "and self._skipped_parts == before(self._skipped_parts) + [partx] "
+                  "and self._unmatched_stdout == before(self._unmatched_stdout) and partx not in self.logged_stdout)"),
+                 # C01.once: an executed part is compiled once, from its own lines, in its own mode
+                 ("executed-part-compiled-once",
+                  "implies(not " + _SK + ", ev_count('compile') == 1 and ev_arg('compile', 0, 'source') == part.compilable_source() "
+                  "and ev_arg('compile', 0, 'mode') == part.compile_mode "
+                  "and self._skipped_parts == before(self._skipped_parts))"),
+                 ("executed-once-in-the-shared-namespace",
+                  "implies(not " + _SK + ", ev_count('exec') + ev_count('eval') <= 1 and "
+                  "(ev_count('exec') == 0 or ev_arg('exec', 0, 'globals') is self.global_namespace) and "
+                  "(ev_count('eval') == 0 or ev_arg('eval', 0, 'globals') is self.global_namespace) and "
+                  "(ev_count('exec') == 0 or ev_arg('exec', 0, 'code') is ev_arg('compile', 0, 'result')) and "
+                  "(ev_count('eval') == 0 or ev_arg('eval', 0, 'code') is ev_arg('compile', 0, 'result')))"),
+                 ("really-executed",
+                  "implies(ev_count('compile') == 1 and not " + _SK + " and ev_count('check_exception') == 0 and "
+                  "not ((ev_arg('compile', 0, 'result').co_flags & CO_COROUTINE == CO_COROUTINE) and is_running_in_loop), "
+                  "ev_count('exec') + ev_count('eval') == 1)"),
+                 # C02.accum
+                 ("unmatched-reset-after-a-want",
+                  "implies(not " + _SK + " and ev_count('check_exception') == 0 and " + _HASWANT + ", self._unmatched_stdout == [])"),
+                 ("unmatched-grows-without-a-want",
+                  "implies(not " + _SK + " and ev_count('check_exception') == 0 and not " + _HASWANT + ", "
+                  "self._unmatched_stdout == before(self._unmatched_stdout) + [cap.text])"),
+                 ("unmatched-kept-after-expected-exception",
+                  "implies(ev_count('check_exception') == 1, self._unmatched_stdout == before(self._unmatched_stdout))"),
+                 # C02: the want is checked against this part's output plus the unmatched outputs
+                 ("want-checked",
+                  "implies(not " + _SK + " and ev_count('check_exception') == 0 and " + _HASWANT +
+                  " and not S.rs_flag(runstate.state, 'IGNORE_WANT'), ev_count('DoctestPart.check') == 1 and "
+                  "ev_arg('DoctestPart.check', 0, 'part') is part and ev_arg('DoctestPart.check', 0, 'got_stdout') == cap.text and "
+                  "ev_arg('DoctestPart.check', 0, 'unmatched') == before(self._unmatched_stdout))"),
+                 ("want-ignored",
+                  "implies(not " + _HASWANT + " or S.rs_flag(runstate.state, 'IGNORE_WANT'), ev_count('DoctestPart.check') == 0)"),
+             ],
+             body_always=[
+                 # C01.stdout / C15: the output of an executed part is logged on every outcome
+                 ("output-logged-on-every-outcome",
+                  "implies(ev_count('compile') == 1 and ev_outcome('compile', 0) == 'normal', partx in self.logged_stdout)"),
+                 # C09.failedflag
+                 ("directive-failure-recorded", "implies(ev_raised('RuntimeState.update') == 1, self.exc_info is not None)"),
+                 ("import-failure-recorded", "implies(ev_raised('DocTest._import_module') == 1, self.exc_info is not None "
+                                             "and self.failed_part == '<IMPORT>')"),
+                 ("compile-failure-recorded", "implies(ev_raised('compile') == 1, self.exc_info is not None and self.failed_part is part)"),
+                 ("mismatch-recorded", "implies(ev_raised('DoctestPart.check') == 1, self.exc_info is not None and self.failed_part is part)"),
+                 # C03: an exception is never hidden by a missing or non-traceback want
+                 ("exception-without-want-recorded",
+                  "implies(ev_raised('exec') == 1 and isinstance(ev_arg('exec', 0, 'exc'), Exception) and "
+                  "not isinstance(ev_arg('exec', 0, 'exc'), (exceptions.ExitTestException, exceptions._pytest.outcomes.Skipped)) "
+                  "and not " + _HASWANT + ", self.exc_info is not None and self.exc_info[1] is ev_arg('exec', 0, 'exc') "
+                  "and self.failed_part is part)"),
+                 ("exception-with-want-goes-to-the-checker",
+                  "implies(ev_raised('exec') == 1 and isinstance(ev_arg('exec', 0, 'exc'), Exception) and " + _HASWANT + ", "
+                  "ev_count('check_exception') == 1 and ev_arg('check_exception', 0, 'want') == " + _WANT + " and "
+                  "ev_arg('check_exception', 0, 'exc_got') == ev_arg('format_exception_only', -1, 'result')[-1] and "
+                  "ev_arg('format_exception_only', -1, 'exc') is ev_arg('exec', 0, 'exc'))"),
+                 ("unexpected-exception-recorded",
+                  "implies(ev_raised('check_exception') == 1 and ev_raised('exec') == 1 and "
+                  "not isinstance(ev_arg('exec', 0, 'exc'), (exceptions.ExitTestException, exceptions._pytest.outcomes.Skipped)), "
+                  "self.exc_info is not None and self.failed_part is part)"),
+                 # C08.fail: the failing line is the first traceback entry of this doctest's pseudo file
+                 ("first-doctest-frame",
+                  "implies(ev_raised('exec') == 1 and self.exc_info is not None and self.exc_info[1] is ev_arg('exec', 0, 'exc') and "
+                  "not isinstance(ev_arg('exec', 0, 'exc'), (checker.GotWantException, checker.ExtractGotReprException, "
+                  "exceptions.ExistingEventLoopError)), "
+                  "exists(lambda k: 0 <= k and k < len(tb_entries(self.exc_info[2])) and "
+                  "tb_entries(self.exc_info[2])[k].tb_frame.f_code.co_filename == self._partfilename and "
+                  "self.failed_tb_lineno == tb_entries(self.exc_info[2])[k].tb_lineno and "
+                  "all(tb_entries(self.exc_info[2])[j].tb_frame.f_code.co_filename != self._partfilename for j in range(0, k))))"),
+             ],
+             exit_post=[("stdout-is-original", "sys.stdout is old(sys.stdout)"),
+                        ("skipped-at-most-all", "len(self._skipped_parts) <= len(self._parts)"),
+                        ("a-failing-part-is-not-skipped", "implies(self.exc_info is not None, "
+                                                          "len(self._skipped_parts) < len(self._parts))")]),
                 1: LoopSpec(
              header="_traverse_traceback(tb)",
              ghost={"tbs": "tb_entries(tb)"},
